@@ -113,11 +113,11 @@ func sizeMap(mapv reflect.Value, mapi *mapInfo, f *coderFieldInfo, opts marshalO
 }
 
 func consumeMap(b []byte, mapv reflect.Value, wtyp protowire.Type, mapi *mapInfo, f *coderFieldInfo, opts unmarshalOptions) (out unmarshalOutput, err error) {
-	if opts.depth--; opts.depth < 0 {
-		return out, errRecursionDepth
-	}
 	if wtyp != protowire.BytesType {
 		return out, errUnknown
+	}
+	if opts.depth--; opts.depth < 0 {
+		return out, errRecursionDepth
 	}
 	b, n := protowire.ConsumeBytes(b)
 	if n < 0 {
@@ -173,11 +173,11 @@ func consumeMap(b []byte, mapv reflect.Value, wtyp protowire.Type, mapi *mapInfo
 }
 
 func consumeMapOfMessage(b []byte, mapv reflect.Value, wtyp protowire.Type, mapi *mapInfo, f *coderFieldInfo, opts unmarshalOptions) (out unmarshalOutput, err error) {
-	if opts.depth--; opts.depth < 0 {
-		return out, errRecursionDepth
-	}
 	if wtyp != protowire.BytesType {
 		return out, errUnknown
+	}
+	if opts.depth--; opts.depth < 0 {
+		return out, errRecursionDepth
 	}
 	b, n := protowire.ConsumeBytes(b)
 	if n < 0 {
